@@ -334,6 +334,24 @@ def nudgeStep (o : ROpts) (vars : List Var) (st : NState) (fps : List Rat) : Opt
       let (cs', rs') := rewriteGaps s' false rs st.cons
       some ⟨false, decide (tolD < s'), ⟨s', cs', rs'⟩⟩
 
+/-- the state the nudging loop of a region starts in: `double sepDist = baseSepDist;` is declared INSIDE the
+    per-region loop of `nudgeOrthogonalRoutes`, together with fresh `vs`, `cs` and `unsatisfiedRanges` -/
+def initState (o : ROpts) (segs : List RSeg) : NState := ⟨o.base, (regionCons o o.base segs).map (flat segs), []⟩
+
+/-- the states in which the solver is called for one region, given the solver's answers attempt by attempt
+    (the do-while loop always solves once; it goes on while a round asks for a retry) -/
+def regionTrace (o : ROpts) (vars : List Var) : NState → List (List Rat) → List NState
+  | st, [] => [st]
+  | st, fps :: rest =>
+    st :: (match nudgeStep o vars st fps with
+      | some out => if out.retry then regionTrace o vars out.next rest else []
+      | none => [])
+
+/-- one nudging pass over the regions of a dimension (each with its ordered segments and the solver's answers):
+    the `while (!m_segment_list.empty())` loop. Nothing is carried from one region to the next. -/
+def runPass (o : ROpts) (regions : List (List RSeg × List (List Rat))) : List (List NState) :=
+  regions.map (fun r => regionTrace o (regionVars o r.1) (initState o r.1) r.2)
+
 /-- `PotentialSegmentConstraint` -/
 abbrev Pot := Nat × Nat
 
